@@ -1,6 +1,6 @@
 ---- MODULE MC_ActorTurn ----
 EXTENDS ActorTurn
-View == <<sched, mbox, sys, life, ppc, pk, tpc, titer, tcur, nturn, rpc, rleft, inHandler, owners, sent, handled, swallowed>>
+View == <<sched, mbox, sys, life, ppc, pk, tpc, titer, tcur, nturn, rpc, rleft, inHandler, owners, sent, handled, swallowed, spc, kpc, psStarted, inPS, psRuns, lockHeld>>
 Ranks == [p \in Producers |-> IF p = "p1" THEN 1 ELSE IF p = "p2" THEN 2 ELSE 3]
 Msgs21 == [p \in Producers |-> IF p = "p1" THEN 2 ELSE 1]
 Msgs22 == [p \in Producers |-> 2]
